@@ -252,6 +252,16 @@ func vpathDepth(v ssa.Value, depth int) string {
 		if x.Comment != "" {
 			return x.Comment
 		}
+	case *ssa.Extract:
+		if call, ok := x.Tuple.(*ssa.Call); ok {
+			if n := calleeName(&call.Call); n != "" {
+				return fmt.Sprintf("%s()#%d", n, x.Index)
+			}
+		}
+	case *ssa.Call:
+		if n := calleeName(&x.Call); n != "" {
+			return n + "()"
+		}
 	case *ssa.Phi:
 		// a phi whose operands share one path
 		p := ""
@@ -1134,4 +1144,172 @@ func onlyOrigins(origins []string, allowed ...string) bool {
 		}
 	}
 	return true
+}
+
+// ReachTargetAvoiding is ReachAvoiding with instruction precision: it searches
+// a path from function entry to the instruction `target` that neither crosses
+// an edge on which one of the guards is passed nor executes an instruction
+// satisfying barrier. Returns the block path or nil.
+func ReachTargetAvoiding(fn *ssa.Function, target ssa.Instruction, guards []Guard, barrier func(ssa.Instruction) bool) []*ssa.BasicBlock {
+	type node struct {
+		st   gstate
+		env  map[*ssa.Phi]phiVal
+		prev *node
+	}
+	start := &node{st: gstate{fn.Blocks[0], ""}, env: map[*ssa.Phi]phiVal{}}
+	seen := map[gstate]bool{start.st: true}
+	queue := []*node{start}
+	for len(queue) > 0 {
+		n := queue[0]
+		queue = queue[1:]
+		b := n.st.blk
+		blocked := false
+		for _, in := range b.Instrs {
+			if in == target {
+				var path []*ssa.BasicBlock
+				for x := n; x != nil; x = x.prev {
+					path = append([]*ssa.BasicBlock{x.st.blk}, path...)
+				}
+				return path
+			}
+			if barrier != nil && barrier(in) {
+				blocked = true
+				break
+			}
+		}
+		if blocked {
+			continue
+		}
+		allow := []bool{true, true}
+		if len(b.Instrs) > 0 {
+			if ifi, ok := b.Instrs[len(b.Instrs)-1].(*ssa.If); ok {
+				allow[0], allow[1] = guardEdges(ifi.Cond, n.env, guards)
+			}
+		}
+		for si, s := range b.Succs {
+			if si < 2 && len(b.Succs) == 2 && !allow[si] {
+				continue
+			}
+			env := n.env
+			predIdx := -1
+			for i, p := range s.Preds {
+				if p == b {
+					predIdx = i
+					break
+				}
+			}
+			var newEnv map[*ssa.Phi]phiVal
+			for _, in := range s.Instrs {
+				ph, ok := in.(*ssa.Phi)
+				if !ok {
+					break
+				}
+				if bt, ok := ph.Type().Underlying().(*types.Basic); !ok || bt.Kind() != types.Bool {
+					continue
+				}
+				if predIdx < 0 {
+					continue
+				}
+				pv := phiValue(ph.Edges[predIdx], guards, n.env)
+				if newEnv == nil {
+					newEnv = map[*ssa.Phi]phiVal{}
+					for k, v := range env {
+						newEnv[k] = v
+					}
+				}
+				if pv.kind == 0 {
+					delete(newEnv, ph)
+				} else {
+					newEnv[ph] = pv
+				}
+			}
+			if newEnv != nil {
+				env = newEnv
+			}
+			st := gstate{s, envKey(env)}
+			if seen[st] {
+				continue
+			}
+			seen[st] = true
+			queue = append(queue, &node{st: st, env: env, prev: n})
+		}
+	}
+	return nil
+}
+
+// ReachesCallConst explores fn (with the given constant parameter values) by
+// finite-valuation propagation and follows static calls into repo functions
+// (passing on constant arguments) up to depth levels; it reports whether a call
+// to one of the target callees is reachable.
+func (c *Ctx) ReachesCallConst(fn *ssa.Function, params map[*ssa.Parameter]AV, depth int, targets ...string) (bool, []string) {
+	var trail []string
+	found := false
+	var visit func(f *ssa.Function, ps map[*ssa.Parameter]AV, d int, stack []string)
+	visit = func(f *ssa.Function, ps map[*ssa.Parameter]AV, d int, stack []string) {
+		if found || f == nil || f.Blocks == nil {
+			return
+		}
+		it := &Interp{Fn: f, MaxStates: 50000}
+		it.Input = func(v ssa.Value) (AV, bool) {
+			if p, ok := v.(*ssa.Parameter); ok {
+				if a, ok := ps[p]; ok && a.K != Top {
+					return a, true
+				}
+			}
+			return AV{}, false
+		}
+		type pending struct {
+			callee *ssa.Function
+			ps     map[*ssa.Parameter]AV
+		}
+		var next []pending
+		it.Outcome = func(in ssa.Instruction, ev func(ssa.Value) AV) string {
+			ci, ok := in.(ssa.CallInstruction)
+			if !ok {
+				return ""
+			}
+			n := calleeName(ci.Common())
+			for _, t := range targets {
+				if n == t {
+					found = true
+					trail = append(append([]string{}, stack...), fnKey(f)+" -> "+t+" @"+c.Pos(in.Pos()))
+				}
+			}
+			if d > 0 {
+				if callee := staticCallee(ci.Common()); callee != nil && callee.Pkg != nil && strings.HasPrefix(callee.Pkg.Pkg.Path(), modPath) && callee.Blocks != nil {
+					nps := map[*ssa.Parameter]AV{}
+					for i, p := range callee.Params {
+						if i < len(ci.Common().Args) {
+							nps[p] = ev(ci.Common().Args[i])
+						}
+					}
+					next = append(next, pending{callee, nps})
+				}
+			}
+			return ""
+		}
+		it.Run()
+		for _, p := range next {
+			visit(p.callee, p.ps, d-1, append(stack, fnKey(f)))
+		}
+	}
+	visit(fn, params, depth, nil)
+	return found, trail
+}
+
+// heldLock reports whether a lock whose path ends in suffix is held (write
+// lock, or also read lock if allowRead).
+func heldLock(held map[string]bool, suffix string, allowRead bool) bool {
+	for l := range held {
+		if strings.HasPrefix(l, "R:") {
+			if allowRead && strings.HasSuffix(l, suffix) {
+				return true
+			}
+			continue
+		}
+		if strings.HasSuffix(l, suffix) {
+			return true
+		}
+	}
+	return false
 }
